@@ -79,6 +79,60 @@ func c14Assign(r *gen.R, v ref.V) any {
 	return v
 }
 
+var c14Uniform = []string{"float64", "float32", "int", "int64", "uint", "decimal128", "json.Number-dot-zero"}
+
+func c14AssignUniform(v ref.V, kind string) any {
+	switch x := v.(type) {
+	case ref.Num:
+		f, _ := x.R.Float64()
+		isInt := x.R.IsInt()
+		var i int64
+		if isInt {
+			i = x.R.Num().Int64()
+		}
+		switch kind {
+		case "float64":
+			return f
+		case "float32":
+			return float32(f)
+		case "int":
+			if isInt {
+				return int(i)
+			}
+		case "int64":
+			if isInt {
+				return i
+			}
+		case "uint":
+			if isInt && i >= 0 {
+				return uint(i)
+			}
+		case "decimal128":
+			if d, err := decimal128.Parse(ref.NumText(x)); err == nil {
+				return d
+			}
+		case "json.Number-dot-zero":
+			if isInt {
+				return json.Number(fmt.Sprintf("%d.0", i))
+			}
+		}
+		return json.Number(ref.NumText(x))
+	case *ref.Arr:
+		a := make([]any, len(x.E))
+		for i, e := range x.E {
+			a[i] = c14AssignUniform(e, kind)
+		}
+		return a
+	case *ref.Obj:
+		m := make(map[string]any, len(x.Keys))
+		for _, k := range x.Keys {
+			m[k] = c14AssignUniform(x.M[k], kind)
+		}
+		return m
+	}
+	return v
+}
+
 var c14Templates = []string{
 	"a + b", "a - b", "a * b", "a × b", "a / `2`", "a / `4`", "a ÷ `8`", "a // b", "a % b", "a // `2`", "a % `2`", "-a", "+a", "−a", "a + b * c", "(a + b) * c", "a - b - c", "a * b - c",
 	"a < b", "a <= b", "a == b", "a != b", "a > b", "a >= b", "a == `1.5`", "a == `2`", "`3` == a", "a < `0`", "[a, b] == [b, a]", "{k: a} == {k: b}", "[a] == [`1`]",
@@ -155,8 +209,15 @@ func c14Run(c *Ctx, idx int) {
 		c.Count("mixed_sign_division_cases", 1)
 	}
 	nontriv := false
-	for v := 0; v < 6; v++ {
-		data := c14Assign(r, doc)
+	nv := 6 + len(c14Uniform)
+	for v := 0; v < nv; v++ {
+		var data any
+		if v < 6 {
+			data = c14Assign(r, doc)
+		} else {
+			// every leaf in one and the same kind (where it holds the value exactly)
+			data = c14AssignUniform(doc, c14Uniform[v-6])
+		}
 		lv := c.LibSearch(text, data)
 		if MultiFaultOK(m, lb, lv) {
 			continue // several faults present: either may be reported
@@ -263,7 +324,7 @@ func c14Boundary(c *Ctx, idx int) {
 func init() {
 	Register(&Property{
 		ID:            "C14",
-		Rule:          "documents whose number leaves are dyadic rationals k/2^m (|k| < 2^11, m <= 4: exact in json.Number, every int/uint width that fits, float32, float64 and decimal128) with 100 expression templates (+ - x / by powers of two, // %, unary signs, comparisons, == != incl. against literals and inside containers, contains, sort, sort_by, min/max(_by), sum, avg, abs/ceil/floor, truthiness, type, to_number, to_string round trip, filters, map, group_by and every integer-argument coercion fed from the document with integral, non-integral and negative values) and seeded random arithmetic expressions; baseline = all leaves as canonical json.Number; 6 random assignments of Go representations per case (json.Number spellings 5 / 5.0 / 5e0 / 50e-1, int..int64, uint..uint64, float32, float64, decimal128 in two exponents) must give the same outcome in value and error category (metamorphic, library against itself); boundary stream: 13 large integral values (2^31 .. 2^64, -2^63, 2^100) in every kind that holds them exactly through 24 templates (integer arguments, comparisons, sorting, arithmetic); non-trivial = at least one leaf changed representation and the result is non-null",
+		Rule:          "documents whose number leaves are dyadic rationals k/2^m (|k| < 2^11, m <= 4: exact in json.Number, every int/uint width that fits, float32, float64 and decimal128) with 100 expression templates (+ - x / by powers of two, // %, unary signs, comparisons, == != incl. against literals and inside containers, contains, sort, sort_by, min/max(_by), sum, avg, abs/ceil/floor, truthiness, type, to_number, to_string round trip, filters, map, group_by and every integer-argument coercion fed from the document with integral, non-integral and negative values) and seeded random arithmetic expressions; baseline = all leaves as canonical json.Number; 6 random assignments of Go representations per case plus 7 uniform ones (every leaf float64 / float32 / int / int64 / uint / decimal128 / 'n.0') (json.Number spellings 5 / 5.0 / 5e0 / 50e-1, int..int64, uint..uint64, float32, float64, decimal128 in two exponents) must give the same outcome in value and error category (metamorphic, library against itself); boundary stream: 13 large integral values (2^31 .. 2^64, -2^63, 2^100) in every kind that holds them exactly through 24 templates (integer arguments, comparisons, sorting, arithmetic); non-trivial = at least one leaf changed representation and the result is non-null",
 		MinNontrivial: 2000,
 		Streams: []Stream{
 			{Name: "assignments", N: func(c *Ctx) int { return tierN(c, 20000, 300000) }, Run: c14Run},
